@@ -22,7 +22,8 @@ CHECKS = {
                   "no internal lookup can fail, generator safety) on small universes; every TLC-exported history up to the depth bound, every tier-I counterexample "
                   "schedule and seeded long histories are replayed on rdflib (both in-memory stores, shared/own store, 5 vocabularies incl. falsy terms) and each recorded "
                   "trace is validated by TLC against the property spec with all 8 pattern shapes, len, iteration, membership and set operators compared at the observation points."),
-        "note": _NOTE_COMMON + " Iterator clause checked on the default store only, interleavings of calls in one thread.",
+        "note": _NOTE_COMMON + " Iterator clause checked on the default store only, interleavings of calls in one thread. The thorough tier also runs the repository's own tests (15 test directories) with the "
+                "Memory-store hooks on (rdflib/_verif.py, guard RDFLIB_VERIF) and lets TLC validate every store instance's recorded add / remove history against TraceMemory.tla (len(store) and len(store, context) after every event).",
     },
 }
 _T = "TLA+ spec + TLC model checking (tier P / implementation-shaped tier I, deviation variants must be refuted) + TLC trace validation of replayed TLC-generated and seeded histories"
